@@ -664,6 +664,11 @@ def check_vocab(ctx):
     ctx.case(dict(vocab=len(VOCAB_LIST)))
 
 
+def SolvedMaze_from(m, sol):
+    from maze_dataset import SolvedMaze
+    return SolvedMaze.from_lattice_maze(m, [tuple(int(x) for x in c) for c in sol])
+
+
 def sweep_mazes(ctx, n_adj, n_path, gmax):
     adj_m, path_m = [], []
     for k in range(n_adj):
@@ -673,6 +678,14 @@ def sweep_mazes(ctx, n_adj, n_path, gmax):
         n = 5 if k < 3 else ctx.rng.randrange(2, gmax + 1)
         m = gen_lattice(ctx, n, cyclic=(k % 2 == 0))
         path_m.append(as_kind(ctx, m, "solved", walk=(k % 3 == 2)))
+    # a solution that starts on the LAST row and crosses the grid (the agent's initial heading is a virtual cell below the start),
+    # on a tree and on a cyclic maze: long fork-to-fork segments with turns
+    for cyc in (False, True):
+        m = gen_lattice(ctx, 5, cyclic=cyc)
+        try:
+            path_m.append(SolvedMaze_from(m, m.find_shortest_path((4, ctx.rng.randrange(5)), (0, ctx.rng.randrange(5)))))
+        except ValueError:
+            pass
     # degenerate but legal: a solved maze whose start is its end (one-cell solution, no step at all), at a fork cell and at a dead end
     from maze_dataset import SolvedMaze
     m = gen_lattice(ctx, 4, cyclic=True)
